@@ -3,6 +3,7 @@ package main
 import (
 	"fmt"
 	"go/token"
+	"strings"
 
 	"golang.org/x/tools/go/ssa"
 )
@@ -200,7 +201,7 @@ func ruleOpenOrder(r *Run, p *Program, rule string) {
 	if g := p.Fn("(*pogreb.DB).recover"); r.anchor(rule, "(*pogreb.DB).recover", g != nil) {
 		r.fn(funcKey(g))
 		okOrder := false
-		instrsOf(g, func(in ssa.Instruction) {
+		deepInstrs(p, g, func(in ssa.Instruction) {
 			c, ok := in.(*ssa.Call)
 			if !ok {
 				return
@@ -224,10 +225,13 @@ func ruleOpenOrder(r *Run, p *Program, rule string) {
 		// slot built from the record
 		want := map[string]string{"segmentID": "pogreb.record.segmentID", "offset": "pogreb.record.offset"}
 		got := map[string]bool{}
-		instrsOf(g, func(in ssa.Instruction) {
+		deepInstrs(p, g, func(in ssa.Instruction) {
 			st, ok := in.(*ssa.Store)
 			if !ok {
 				return
+			}
+			if k := funcKey(in.Parent()); strings.HasPrefix(k, "(*pogreb.index).") || strings.HasPrefix(k, "(*pogreb.slotWriter).") || strings.HasPrefix(k, "(*pogreb.bucket") {
+				return // the index's own slot handling, not the replay
 			}
 			fn := fieldName(st.Addr)
 			for k, v := range want {
